@@ -220,7 +220,9 @@ def handleK (op : String) (args res : List String) : Option Verdict :=
       let mlon := ra.getD 1 0
       -- lon is AngNormalize'd by the implementation: compare modulo 360 (|lam| can exceed 180 for an Albers cone with k²n > 1)
       let lonN := if Float.abs (lon - mlon) > 180 then lon + 360 * Float.round ((mlon - lon) / 360) else lon
-      checks "AlbersEqualArea::Reverse" (zip4 ["lat", "lon", "gamma", "k"] [lat, lonN, g, k] ra rb fun nm => if nm == "lat" then 64 * epsF * 90 else if nm == "k" then 0 else 64 * epsF * 180)
+      -- beyond the image (the nearest pole is returned, tan φ ~ 1/ε²) the scale is an overflow-scale number of no meaning
+      let kslack : Float := if Float.abs r0.tphi.v > 1e12 then Float.abs k + Float.abs (ra.getD 3 0) else 0
+      checks "AlbersEqualArea::Reverse" (zip4 ["lat", "lon", "gamma", "k"] [lat, lonN, g, k] ra rb fun nm => if nm == "lat" then 64 * epsF * 90 else if nm == "k" then kslack else 64 * epsF * 180)
     | _, _, _, _ => .bad "parse"
   | "csetscale" => some <|
     if res == ["!E"] then .skip "SetScale rejected" else
